@@ -5,25 +5,13 @@ import LZ4V.Proofs.DecodeFun6
 namespace LZ4V.Model.Decode
 open LZ4V.Model LZ4V.Gen LZ4V.Spec.Block
 
-/-- an in-buffer LZ77 copy at the sequence's offset is the specification's `copyMatch` -/
-theorem ext_post (env : Env) (buf b : Bytes) (op offset length : Nat) (out1 : List UInt8) (hrel : Rel env buf op out1)
-    (hL : env.low.toNat ≤ op) (hmL : env.low.toNat + offset ≤ op) (ho : 1 ≤ offset) (e : Ext buf b op offset (op + length))
-    (hsz : op + length ≤ buf.size) :
-    offset ≤ out1.length ∧ ∃ out2, copyMatch out1 offset length = some out2 ∧ Rel env b (op + length) out2 := by
-  have hlen := hrel.len
-  refine ⟨by omega, ?_⟩
-  obtain ⟨out2, ho1, ho2, _⟩ := hrel.copy (b := b) hL e.low offset length ho (by omega) (by rw [e.size]; omega)
-    (vw_per_of_Per env b op offset length out1.length hL hlen hmL e.per)
-  exact ⟨out2, ho1, ho2⟩
-
 /-- the match part of a fast-loop iteration -/
 theorem fastMatch_sim (env : Env) (N : Nat) (hw : WF2 env N) (s : St) (token : Nat)
-    (hsz : s.buf.size = N) (hd0 : env.dst0 ≤ s.op) (out1 : List UInt8) (hrel : Rel env s.buf s.op out1) :
-    Sim (fun next => ∃ s' ml, (next = Next.fast s' ∨ next = Next.safe s') ∧
-            readField (token % 16) (rem env.src (s.ip + 2)) = some (ml - 4, rem env.src s'.ip) ∧ 4 ≤ ml ∧
-            MatchPost env s s'.ip (off16 env.src s.ip) ml out1 s')
+    (hsz : s.buf.size = N) (hd0 : env.dst0 ≤ s.op) (hop : s.op ≤ N) (out1 : List UInt8) (hrel : Rel env s.buf s.op out1) :
+    Sim (fun next => ∃ ml ip', readField (token % 16) (rem env.src (s.ip + 2)) = some (ml - 4, rem env.src ip') ∧ 4 ≤ ml ∧
+            MatchPost env N s ip' (off16 env.src s.ip) ml out1 next)
         (∃ v rest, readField (token % 16) (rem env.src (s.ip + 2)) = some (v, rest) ∧ (v ≥ 15 → s.ip + 2 + (v - 15) / 255 + 1 + 4 ≤ env.src.size) ∧
-                   1 ≤ off16 env.src s.ip ∧ off16 env.src s.ip ≤ out1.length ∧ s.op + (v + 4) + 5 ≤ N)
+                   1 ≤ off16 env.src s.ip ∧ off16 env.src s.ip ≤ out1.length ∧ (env.partialD = true ∨ s.op + (v + 4) + 5 ≤ N))
         (fastMatch env s token) := by
   have hlow2 := hw.wf.low_le
   have hlen := hrel.len
@@ -43,17 +31,20 @@ theorem fastMatch_sim (env : Env) (N : Nat) (hw : WF2 env N) (s : St) (token : N
   intro r _ hr
   obtain ⟨hr1, hr2, hr3, hr4, hr5, _⟩ := hr
   have hV : (∃ v rest, readField (token % 16) (rem env.src (s.ip + 2)) = some (v, rest) ∧ (v ≥ 15 → s.ip + 2 + (v - 15) / 255 + 1 + 4 ≤ env.src.size) ∧
-                   1 ≤ offset ∧ offset ≤ out1.length ∧ s.op + (v + 4) + 5 ≤ N) → 1 ≤ offset ∧ offset ≤ out1.length ∧ s.op + r.1 + 5 ≤ N := by
+                   1 ≤ offset ∧ offset ≤ out1.length ∧ (env.partialD = true ∨ s.op + (v + 4) + 5 ≤ N)) →
+        1 ≤ offset ∧ offset ≤ out1.length ∧ (env.partialD = true ∨ s.op + r.1 + 5 ≤ N) := by
     rintro ⟨v, rest, h1, _, h3, h4, h5⟩
     rw [hr1] at h1
     simp only [Option.some.injEq, Prod.mk.injEq] at h1
-    exact ⟨h3, h4, by omega⟩
+    refine ⟨h3, h4, ?_⟩
+    rcases h5 with h5 | h5
+    · exact Or.inl h5
+    · right; omega
   by_cases hnear : s.op + r.1 + 64 ≥ N
   · rw [if_pos hnear]
-    apply (safeMatch_sim env N hw s r.2 offset r.1 hsz hd0 out1 hrel).mono
-    · rintro next _ ⟨s', hs1, hs2⟩
-      have : s'.ip = r.2 := hs2.1
-      exact ⟨s', r.1, Or.inr hs1, by rw [this]; exact hr1, hr2, by rw [this]; exact hs2⟩
+    apply (safeMatch_sim env N hw s r.2 offset r.1 hsz hd0 hop out1 hrel).mono
+    · intro next _ hmp
+      exact ⟨r.1, r.2, hr1, hr2, hmp⟩
     · exact hV
   · rw [if_neg hnear]
     by_cases hsc : token % 16 ≠ 15 ∧ (env.dict = .withPrefix64k ∨ (s.op : Int) - offset ≥ env.low) ∧ offset ≥ 8
@@ -65,12 +56,11 @@ theorem fastMatch_sim (env : Env) (N : Nat) (hw : WF2 env N) (s : St) (token : N
         intro b2 hb2
         apply Sim.pure
         have hr1' := hr5 hsc.1
-        have hmp := copy18_post env N hw s.buf s.op offset (token % 16) hsz hd0 out1 hrel hsc.2.2 ho3 (by omega) (by omega) hsc.2.1 hm0 b2 hb2 r.2
+        have hcp := copy18_post env N hw s.buf s.op offset (token % 16) hsz hd0 out1 hrel hsc.2.2 ho3 (by omega) (by omega) hsc.2.1 hm0 b2 hb2 s.ip r.2
         have e1 : r.1 = token % 16 + 4 := by rw [hr1']
-        refine ⟨_, r.1, Or.inl rfl, hr1, hr2, ?_⟩
-        dsimp only
+        refine ⟨r.1, r.2, hr1, hr2, ⟨r.2, s.op + r.1, b2⟩, r.1, Nat.le_refl _, ?_, Or.inl ⟨rfl, Or.inr rfl⟩⟩
         rw [e1, show s.op + (token % 16 + 4) = s.op + token % 16 + 4 by omega]
-        exact ⟨rfl, by dsimp only; omega, hmp.2.2⟩
+        exact hcp
     · rw [if_neg hsc]
       by_cases chk : env.dictSize < 65536 ∧ (s.op : Int) - offset + env.dictSize < env.low
       · rw [if_pos chk]
@@ -87,13 +77,17 @@ theorem fastMatch_sim (env : Env) (N : Nat) (hw : WF2 env N) (s : St) (token : N
             obtain ⟨s', hs', hn⟩ := bind_ok hn
             simp only [pure, Except.pure, Except.ok.injEq] at hn
             subst hn
-            have hmp := extDictMatch_ok env N hw s r.2 _ r.1 offset hsz hd0 hx.1 out1 hrel (by omega) (by omega) s' hs'
-            have : s'.ip = r.2 := hmp.1
-            exact ⟨s', r.1, Or.inl rfl, by rw [this]; exact hr1, hr2, by rw [this]; exact hmp⟩
+            obtain ⟨mlen, hm1, hm2, hcp⟩ := extDictMatch_ok env N hw s r.2 _ r.1 offset hsz hd0 hop hx.1 out1 hrel (by omega) (by omega) s' hs'
+            refine ⟨r.1, r.2, hr1, hr2, s', mlen, hm1, hcp, ?_⟩
+            by_cases hml : mlen < r.1
+            · right; exact ⟨(hm2 hml).1, by rw [hcp.2.1]; exact (hm2 hml).2, rfl⟩
+            · left; exact ⟨by omega, Or.inr rfl⟩
           · intro ip' hb
             rcases bind_bad hb with hb | ⟨s', _, hb⟩
             · have := extDictMatch_bad env s r.2 _ r.1 ip' hb
-              omega
+              exfalso
+              apply this
+              right; omega
             · cases hb
         · rw [if_neg hx]
           by_cases hm0 : (s.op : Int) - offset < 0
@@ -108,7 +102,7 @@ theorem fastMatch_sim (env : Env) (N : Nat) (hw : WF2 env N) (s : St) (token : N
             apply Sim.step (fastMatchCopy_nb _ _ _ _ _)
             intro b2 hb2
             apply Sim.pure
-            refine ⟨_, r.1, Or.inl rfl, hr1, hr2, rfl, rfl, fun ho => ?_⟩
+            refine ⟨r.1, r.2, hr1, hr2, ⟨r.2, s.op + r.1, b2⟩, r.1, Nat.le_refl _, ⟨rfl, rfl, fun ho => ?_⟩, Or.inl ⟨rfl, Or.inr rfl⟩⟩
             have e := fastMatchCopy_ok s.buf s.op _ offset r.1 b2 hb2 ho (by omega)
             exact ext_post env s.buf b2 s.op offset r.1 out1 hrel (by omega) (by omega) ho e (by omega)
 
@@ -116,31 +110,28 @@ theorem fastMatch_sim (env : Env) (N : Nat) (hw : WF2 env N) (s : St) (token : N
 theorem fastMatch_step (env : Env) (N : Nat) (hw : WF2 env N) (st : St) (ip token length : Nat) (h0 : st.ip < env.src.size)
     (htok : token = env.src[st.ip].toNat) (hip : ip ≤ env.src.size)
     (hrf : readField (token / 16) (rem env.src (st.ip + 1)) = some (length, rem env.src ip)) (hin : ip + length + 2 ≤ env.src.size)
-    (hsz : st.buf.size = N) (hd0 : env.dst0 ≤ st.op) (out : List UInt8) (hrel : Rel env st.buf st.op out)
+    (hsz : st.buf.size = N) (hd0 : env.dst0 ≤ st.op) (hroom : st.op + length ≤ N) (out : List UInt8) (hrel : Rel env st.buf st.op out)
     (b : Bytes) (n : Nat) (hn : length ≤ n) (hb : copyIn st.buf st.op env.src ip .srcRead n = .ok b) :
-    Sim (StepPost env st out) (VIter N st.op out.length (rem env.src st.ip)) (fastMatch env ⟨ip + length, st.op + length, b⟩ token) := by
+    Sim (StepPost env N st out) (VIter env N st.op out.length (rem env.src st.ip)) (fastMatch env ⟨ip + length, st.op + length, b⟩ token) := by
   subst htok
   have hlow2 := hw.wf.low_le
-  obtain ⟨c1, c2, c3, _⟩ := copyIn_spec _ _ _ _ _ _ _ hb
-  have hrel' : Rel env b (st.op + length) (out ++ litsAt env.src ip length) := by
-    have := hrel.lits (b := b) (by omega) (fun j hj => c2 j (Or.inl hj)) (litsAt env.src ip length) (by
-      intro i hi
-      rw [litsAt_length env.src ip length (by omega)] at hi
-      rw [c3 i (by omega), litsAt_get env.src ip length i hi])
-    rw [litsAt_length env.src ip length (by omega)] at this
-    exact this
-  apply (fastMatch_sim env N hw ⟨ip + length, st.op + length, b⟩ (env.src[st.ip].toNat) (by dsimp only; omega) (by dsimp only; omega) _ hrel').mono
-  · rintro next _ ⟨s', ml, hn, hrf2, h4, hmp⟩
-    have hsp := seqPost_of_match env st ip length h0 hip hrf hin out _ s' ml rfl hrf2 h4 hmp
-    rcases hn with hn | hn <;> (subst hn; exact hsp)
+  have hbsz : b.size = N := by rw [(copyIn_spec _ _ _ _ _ _ _ hb).1]; exact hsz
+  have hrel' : Rel env b (st.op + length) (out ++ litsAt env.src ip length) :=
+    rel_lits env st ip length n out hrel (by omega) b hb hn (by omega)
+  apply (fastMatch_sim env N hw ⟨ip + length, st.op + length, b⟩ (env.src[st.ip].toNat) hbsz (by dsimp only; omega) hroom _ hrel').mono
+  · rintro next _ ⟨ml, ip', hrf2, h4, hmp⟩
+    exact stepPost_of_match env N st ip length h0 hip hrf hin out _ ml ip' rfl hrf2 h4 next hmp
   · intro hv
-    obtain ⟨v, rest, v1, v2, v3, v4, v5, _, _⟩ := vmatch_of_viter env N st ip length h0 hip hrf hin out hv
-    exact ⟨v, rest, v1, fun h => by have := v2 h; dsimp only; omega, v3, v4, by dsimp only; omega⟩
+    obtain ⟨v, rest, v1, v2, v3, v4, v5, _⟩ := vmatch_of_viter env N st ip length h0 hip hrf hin out hv
+    refine ⟨v, rest, v1, fun h => by have := v2 h; dsimp only; omega, v3, v4, ?_⟩
+    rcases v5 with v5 | v5
+    · exact Or.inl v5
+    · right; dsimp only; omega
 
 /-- **one iteration of the fast loop is one step of the specification** -/
 theorem fastIter_sim (env : Env) (N : Nat) (hw : WF2 env N) (st : St)
-    (hsz : st.buf.size = N) (hd0 : env.dst0 ≤ st.op) (out : List UInt8) (hrel : Rel env st.buf st.op out) :
-    Sim (StepPost env st out) (VIter N st.op out.length (rem env.src st.ip)) (fastIter env st) := by
+    (hsz : st.buf.size = N) (hd0 : env.dst0 ≤ st.op) (hop : st.op ≤ N) (out : List UInt8) (hrel : Rel env st.buf st.op out) :
+    Sim (StepPost env N st out) (VIter env N st.op out.length (rem env.src st.ip)) (fastIter env st) := by
   unfold fastIter
   apply Sim.step (rd8_nb _ _)
   intro token htok
@@ -150,36 +141,31 @@ theorem fastIter_sim (env : Env) (N : Nat) (hw : WF2 env N) (st : St)
   have c32 : fastLitMargin = 32 := rfl
   have c17 : fastShortLitIn = 17 := rfl
   rw [c15, c32, c17, hsz]
-  have hVlit : VIter N st.op out.length (rem env.src st.ip) →
-      ∃ v rest, readField (token / 16) (rem env.src (st.ip + 1)) = some (v, rest) ∧ (v ≥ 15 → st.ip + 1 + (v - 15) / 255 + 1 + 15 ≤ env.src.size) := by
-    intro hv
-    obtain ⟨v, rest, h1, h2⟩ := viter_lit env.src N st.op out.length st.ip h0 hv
-    rw [← htok] at h1
-    refine ⟨v, rest, h1, fun h15 => ?_⟩
-    have := readField_rest_length _ _ _ _ h1 h15 (by omega)
-    rw [rem_length] at this
-    omega
   by_cases h15 : token / 16 = 15
   · rw [if_pos h15]
-    apply Sim.bind ((litLen_sim env.src (st.ip + 1) token).mono (fun a _ h => h) hVlit)
+    apply Sim.bind ((litLen_sim env.src (st.ip + 1) token).mono (fun a _ h => h) (vlit_of_viter env N st.op out.length st.ip token h0 htok))
     intro r _ hr
     obtain ⟨hr1, hr2, hr3, _⟩ := hr
     by_cases hs : st.op + r.1 + 32 > N ∨ r.2 + r.1 + 32 > env.src.size
     · rw [if_pos hs]
-      exact safeLit_sim env N hw st r.2 token r.1 h0 htok (by omega) hr1 hsz hd0 out hrel
+      exact safeLit_sim env N hw st r.2 token r.1 h0 htok (by omega) hr1 hsz hd0 hop out hrel
     · rw [if_neg hs]
       apply Sim.step (copyIn_nb _ _ _ _ _ _)
       intro b hb
       have hw32 := wild32len_le st.op (st.op + r.1)
-      exact fastMatch_step env N hw st r.2 token r.1 h0 htok (by omega) hr1 (by omega) hsz hd0 out hrel b _ (by omega) hb
+      exact fastMatch_step env N hw st r.2 token r.1 h0 htok (by omega) hr1 (by omega) hsz hd0 (by omega) out hrel b _ (by omega) hb
   · rw [if_neg h15]
     have hrf := readField_small _ (rem env.src (st.ip + 1)) h15
     by_cases hs : st.ip + 1 + 17 ≤ env.src.size
     · rw [if_pos hs]
       apply Sim.step (copyIn_nb _ _ _ _ _ _)
       intro b hb
-      exact fastMatch_step env N hw st (st.ip + 1) token (token / 16) h0 htok (by omega) hrf (by omega) hsz hd0 out hrel b 16 (by omega) hb
+      have hroom : st.op + token / 16 ≤ N := by
+        obtain ⟨c1, _, _, c4⟩ := copyIn_spec _ _ _ _ _ _ _ hb
+        have := c4 (by omega)
+        omega
+      exact fastMatch_step env N hw st (st.ip + 1) token (token / 16) h0 htok (by omega) hrf (by omega) hsz hd0 hroom out hrel b 16 (by omega) hb
     · rw [if_neg hs]
-      exact safeLit_sim env N hw st (st.ip + 1) token (token / 16) h0 htok (by omega) hrf hsz hd0 out hrel
+      exact safeLit_sim env N hw st (st.ip + 1) token (token / 16) h0 htok (by omega) hrf hsz hd0 hop out hrel
 
 end LZ4V.Model.Decode
